@@ -27,9 +27,19 @@ type regT struct {
 }
 type regF float64
 
+// a second family: built-in types and byte containers (their values take fmt's byte-string paths under %s %q %x %X)
+type regB []byte
+type regA [2]byte
+
+// regU: an unsafe string of a type that is never registered -- the sentinel printed AFTER a value of a registered type
+type regU string
+
+const regSentinel = regU("zq9")
+
 var regTypes = map[string]reflect.Type{
 	"int": reflect.TypeOf(regI(0)), "string": reflect.TypeOf(regS("")), "struct": reflect.TypeOf(regT{}), "float": reflect.TypeOf(regF(0)),
 	"ptrstruct": reflect.TypeOf(&regT{}),
+	"bstring":   reflect.TypeOf(""), "bint": reflect.TypeOf(0), "bytes": reflect.TypeOf(regB{}), "barray": reflect.TypeOf(regA{}),
 }
 
 func regValue(t string) interface{} {
@@ -42,6 +52,14 @@ func regValue(t string) interface{} {
 		return regT{7, "f"}
 	case "ptrstruct":
 		return &regT{7, "f"}
+	case "bstring":
+		return "txt2"
+	case "bint":
+		return 4712
+	case "bytes":
+		return regB("by")
+	case "barray":
+		return regA{7, 9}
 	}
 	return regF(2.5)
 }
@@ -59,6 +77,35 @@ func regProbes(t string) []string {
 	}
 }
 
+// regLeakProbes: a value of type t in a statically typed field / element, FOLLOWED by the unsafe sentinel, under the verbs
+// that take different paths through the printer for different kinds; then the sentinel alone in a call of its own
+// (a printer that kept a safe override from the call before would show it)
+func regLeakProbes(t string) []string {
+	v := reflect.ValueOf(regValue(t))
+	st := reflect.StructOf([]reflect.StructField{{Name: "X", Type: v.Type()}, {Name: "S", Type: reflect.TypeOf(regSentinel)}})
+	sv := reflect.New(st).Elem()
+	sv.Field(0).Set(v)
+	sv.Field(1).Set(reflect.ValueOf(regSentinel))
+	sl := reflect.MakeSlice(reflect.SliceOf(v.Type()), 0, 1)
+	sl = reflect.Append(sl, v)
+	mp := reflect.MakeMap(reflect.MapOf(reflect.TypeOf(0), v.Type()))
+	mp.SetMapIndex(reflect.ValueOf(1), v)
+	var out []string
+	for _, verb := range []string{"%v", "%+v", "%#v", "%s", "%q", "%x", "%X", "%d"} {
+		out = append(out,
+			string(redact.Sprintf(verb+"|%v", sv.Interface(), regSentinel)),
+			string(redact.Sprintf(verb+"|%v", sl.Interface(), regSentinel)),
+			string(redact.Sprintf(verb+"|%v", mp.Interface(), regSentinel)),
+			string(redact.Sprintf(verb+"|%v", v.Interface(), regSentinel)),
+			string(redact.Sprintf(verb+"|%v", &struct {
+				P interface{}
+				S regU
+			}{v.Interface(), regSentinel}, regSentinel)),
+			string(redact.Sprint(regSentinel)))
+	}
+	return out
+}
+
 // registry-child -order a,b,c : probes before any registration and after each one
 func registryChild(args []string) {
 	fs := flag.NewFlagSet("registry-child", flag.ExitOnError)
@@ -69,6 +116,7 @@ func registryChild(args []string) {
 		m := map[string][]string{}
 		for t := range regTypes {
 			m[t] = regProbes(t)
+			m[t+"#leak"] = regLeakProbes(t)
 		}
 		steps = append(steps, m)
 	}
@@ -147,6 +195,24 @@ func registryReplay(args []string) {
 			}
 			for t, probes := range step {
 				rep.AddEval(int64(len(probes)))
+				if strings.HasSuffix(t, "#leak") {
+					// whatever is registered: the unsafe sentinel after the value (same container, next operand, next call)
+					// stays enveloped, in every spelling the verbs give it
+					for j, p := range probes {
+						vis := string(lib.DeleteEnvelopes([]byte(p)))
+						for _, sp := range []string{"zq9", "7a7139", "7A7139"} {
+							if strings.Contains(vis, sp) {
+								rep.Violate("registry:unsafe-after-registered-visible", fmt.Sprintf("after registering %v: the unsafe value printed after a %s value is in the clear: %q (probe %d)", ln.Order[:i], strings.TrimSuffix(t, "#leak"), p, j), ln)
+							}
+						}
+					}
+					continue
+				}
+				if _, inSet := ln.Safe[t]; !inSet {
+					// a type of the other family: never registered in this behaviour, but registering a built-in type of this
+					// family (int, string) legitimately shows the fields of that kind it holds
+					continue
+				}
 				for j, p := range probes {
 					// the last probe holds the value twice: exported field (registry applies) and unexported field (it applies too: by type)
 					enveloped := strings.Contains(p, "‹")
